@@ -5,7 +5,9 @@ import (
 	"flag"
 	"fmt"
 	"os"
+	"os/exec"
 	"path/filepath"
+	"regexp"
 	"sort"
 	"strconv"
 	"strings"
@@ -304,6 +306,40 @@ func cmdCheck(args []string) int {
 			fmt.Printf("  failed obligation: %s [%s] at %s\n  %s\n", ob.Name, ob.Result, ob.Pos, ob.Text)
 		}
 	}
+	// bounded stand-ins for assumed contracts this check relied on (thorough tier)
+	var standinRes []map[string]any
+	usedAssumed := map[string]bool{}
+	for _, r := range reports {
+		for k := range r.Assumed {
+			usedAssumed[k] = true
+		}
+	}
+	for _, sd := range eng.cs.Standins {
+		if !usedAssumed[sd.Func] {
+			continue
+		}
+		entry := map[string]any{"assumed_contract": sd.Func, "test": sd.File + " " + sd.Test, "label": "bounded (never counted as proved)"}
+		if *tier != "thorough" && os.Getenv("GOVC_STANDINS") == "" {
+			entry["result"] = "not run in the quick tier"
+			standinRes = append(standinRes, entry)
+			continue
+		}
+		ok, cases, out := runStandin(*repo, *verif, sd)
+		entry["cases"] = cases
+		if ok {
+			entry["result"] = "pass"
+		} else {
+			entry["result"] = "FAIL"
+			entry["output"] = out
+			violations++
+			rp := filepath.Join(replayDir, "standin_"+sd.Test+".json")
+			os.MkdirAll(replayDir, 0o755)
+			data, _ := json.MarshalIndent(map[string]any{"obligation": "standin:" + sd.Func, "why": "the assumed contract of " + sd.Func + " is contradicted by the real function (bounded stand-in test failed)", "replay_cmd": "tools/witness.sh " + sd.Pkg + " " + sd.File + " " + sd.Test, "output": out}, "", " ")
+			os.WriteFile(rp, data, 0o644)
+			fmt.Printf("VIOLATION property=%s replay=%s\n  failed obligation: standin:%s (assumed contract contradicted by the real code)\n", *prop, rp, sd.Func)
+		}
+		standinRes = append(standinRes, entry)
+	}
 	for _, l := range findingLines {
 		fmt.Println(l)
 	}
@@ -377,6 +413,7 @@ func cmdCheck(args []string) int {
 			"functions_under_contract": funcs,
 			"vacuity_guards":           map[string]int{"total": covers, "satisfiable": coverOK},
 			"known_finding_obligations": findingLines,
+			"bounded_standins":         standinRes,
 			"per_obligation":           perOb,
 			"abstracted_calls":         abstracted,
 			"solver_seconds":           solverTime,
@@ -406,6 +443,32 @@ func cmdCheck(args []string) int {
 		}
 	}
 	return exit
+}
+
+// runStandin runs one stand-in test in its package through `go test -overlay`.
+func runStandin(repo, verif string, sd Standin) (bool, int, string) {
+	tmp, err := os.MkdirTemp("", "standin")
+	if err != nil {
+		return false, 0, err.Error()
+	}
+	defer os.RemoveAll(tmp)
+	ov := map[string]any{"Replace": map[string]string{filepath.Join(repo, sd.Pkg, "zz_verif_standin_test.go"): filepath.Join(verif, sd.File)}}
+	data, _ := json.Marshal(ov)
+	os.WriteFile(filepath.Join(tmp, "ov.json"), data, 0o644)
+	cmd := exec.Command("go", "test", "-overlay", filepath.Join(tmp, "ov.json"), "-vet=off", "-count=1", "-timeout", "120s", "-v", "-run", "^"+sd.Test+"$", ".")
+	cmd.Dir = filepath.Join(repo, sd.Pkg)
+	cmd.Env = append(os.Environ(), "GOFLAGS=-mod=mod", "GOPROXY=off")
+	out, err := cmd.CombinedOutput()
+	cases := 0
+	if m := regexp.MustCompile(`STANDIN-CASES (\d+)`).FindSubmatch(out); m != nil {
+		cases, _ = strconv.Atoi(string(m[1]))
+	}
+	text := string(out)
+	if len(text) > 3000 {
+		text = text[:3000] + "…"
+	}
+	ok := err == nil && strings.Contains(string(out), "--- PASS: "+sd.Test)
+	return ok, cases, text
 }
 
 func round3(f float64) float64 { return float64(int(f*1000+0.5)) / 1000 }
